@@ -404,10 +404,16 @@ func (f *Frame) execInstr(in ssa.Instruction, reach string, st *State) {
 				lo = -1
 			}
 			ctx.Fact(fmt.Sprintf("(and (<= %d %s) (< %s %d))", lo, tup[0], tup[0], n))
+			for i, sst := range x.States {
+				if sst.Dir == types.SendOnly && sst.Send != nil {
+					f.countSend(sst.Chan, fmt.Sprintf("(= %s %d)", tup[0], i), st)
+				}
+			}
 		}
 	case *ssa.Send:
 		// no effect on modelled state
 		f.sendAsserts(x, x.Chan, x.X, reach, st)
+		f.countSend(x.Chan, "true", st)
 	case *ssa.Slice:
 		f.sliceOp(x, reach, st)
 	case *ssa.SliceToArrayPointer:
